@@ -83,6 +83,11 @@ def run(repo):
             if isinstance(st, ast.AugAssign):
                 probs.append('augmented assignment is not an intersection')
             elif not (isinstance(val, ast.Call) and call_name(val) == fn and len(val.args) == 2):
+                other_fn = 'np.maximum' if fn == 'np.minimum' else 'np.minimum'
+                if any(ntext(x) == ntext(tgt) for x in ast.walk(val)) and not (
+                        isinstance(val, ast.Call) and call_name(val) == other_fn):
+                    raise AnalysisError('lp.Model.do_math: `%s` combines the new bound with the stored one '
+                                        'in a form the rule does not interpret' % ntext(st)[:60])
                 probs.append('the stored value is `%s`, not %s(values, %s)' % (ntext(val)[:40], fn, ntext(tgt)))
             elif not any(ntext(a) == ntext(tgt) for a in val.args):
                 probs.append('%s(..) does not take the current `%s` as an argument' % (fn, ntext(tgt)))
